@@ -619,13 +619,12 @@ impl<'a, S: RowSource> WindowState<'a, S> {
                         let val_a = self.rows.get(a).and_then(|r| r.get(col_idx));
                         let val_b = self.rows.get(b).and_then(|r| r.get(col_idx));
 
+                        // a total order (NULL lowest), as std's sort requires
                         let cmp = match (val_a, val_b) {
-                            (Some(Value::Int(ia)), Some(Value::Int(ib))) => ia.cmp(ib),
-                            (Some(Value::Float(fa)), Some(Value::Float(fb))) => {
-                                fa.partial_cmp(fb).unwrap_or(std::cmp::Ordering::Equal)
-                            }
-                            (Some(Value::Text(ta)), Some(Value::Text(tb))) => ta.cmp(tb),
-                            _ => std::cmp::Ordering::Equal,
+                            (Some(va), Some(vb)) => va.compare_for_sort(vb),
+                            (None, None) => std::cmp::Ordering::Equal,
+                            (None, Some(_)) => std::cmp::Ordering::Less,
+                            (Some(_), None) => std::cmp::Ordering::Greater,
                         };
 
                         let cmp = if sort_key.ascending {
